@@ -144,7 +144,7 @@ type c04corruption struct {
 	doc   any
 }
 
-// corruptions lists the single-point corruptions applicable to doc (five classes).
+// corruptions lists the single-point corruptions applicable to doc (the five classes of the statement).
 func corruptions(doc any, sh *jshape, defs map[string]*jshape) []c04corruption {
 	var positions []c04pos
 	walkDoc(doc, sh, defs, nil, &positions)
@@ -178,6 +178,7 @@ func corruptions(doc any, sh *jshape, defs map[string]*jshape) []c04corruption {
 			add("wrong-kind", func(any) any { return "not an object" })
 			if _, ok := val.(map[string]any); ok {
 				add("unknown-union-kind", func(v any) any { v.(map[string]any)["Kind"] = "__NoSuchKind__"; return v })
+				add("unknown-key-in-union-object", func(v any) any { v.(map[string]any)["__verif_extra__"] = json.Number("1"); return v })
 			}
 		case "enum":
 			isString := len(p.shape.Enum) > 0 && strings.HasPrefix(p.shape.Enum[0], `"`)
@@ -434,8 +435,8 @@ func checkC04(cfg *core.Config) int {
 	}
 	return rep.Finish(core.Evidence{
 		Evaluations: total,
-		Rule:        "sqlprogs with jsonb columns (named structs, maps, slices of structs and unions, nested unions, enums, fixed arrays, time): documents marshalled by the compiled package from seeded values of the column's Go type are bound to the column and the generated CHECK (with the validation functions of the same script) is evaluated by a PL/pgSQL-subset interpreter with SQL three-valued logic: never FALSE/error on emitted documents; FALSE on type-directed single-point corruptions (unknown key in struct objects, value of a never-legal JSON kind, unknown union Kind, non-member enum value, fixed array one short / one long / empty / doubled); every called function defined in the script. Distinct = distinct (column, document).",
-		Assumptions: []string{"PostgreSQL is modelled, not run: harness/support/pgmodel (strict builtins, Kleene logic, CHECK passes on TRUE/NULL, left-to-right AND with short circuit, plan-time type errors)", "missing keys are not among the five corruption classes", "extra keys are only added to struct objects"},
+		Rule:        "sqlprogs with jsonb columns (named structs, maps, slices of structs and unions, nested unions, enums, fixed arrays, time): documents marshalled by the compiled package from seeded values of the column's Go type are bound to the column and the generated CHECK (with the validation functions of the same script) is evaluated by a PL/pgSQL-subset interpreter with SQL three-valued logic: never FALSE/error on emitted documents; FALSE on type-directed single-point corruptions (unknown key in struct objects and in the {Kind, Data} objects of unions, value of a never-legal JSON kind, unknown union Kind, non-member enum value, fixed array one short / one long / empty / doubled); every called function defined in the script. Distinct = distinct (column, document).",
+		Assumptions: []string{"PostgreSQL is modelled, not run: harness/support/pgmodel (strict builtins, Kleene logic, CHECK passes on TRUE/NULL, left-to-right AND with short circuit, plan-time type errors)", "missing keys are not among the five corruption classes", "extra keys are added to struct objects and to the {Kind, Data} objects of unions, not to maps (any key is legal there)"},
 		Extra:       map[string]any{"programs": len(progs), "features": pr.pl.FeatureSummary()},
 	})
 }
